@@ -1238,6 +1238,33 @@ func (st *vC06State) observe2(c []byte, class string, local bool) (*common.Versi
 		return nil, vC06Rejected
 	}
 	st.r.Count("accepted_"+class, 1)
+	// the decoded value must not depend on the caller's buffer after the call returned: decode a private copy,
+	// overwrite that copy, and compare what the two decoded values report
+	if st.caseNo%3 == 0 {
+		buf := bytes.Clone(c)
+		var alias *common.VersionedTransaction
+		var ah, bh crypto.Hash
+		var am, bm []byte
+		if p, _, _ := verifkit.Guard(func() {
+			alias, _ = common.UnmarshalVersionedTransaction(buf)
+			for i := range buf {
+				buf[i] ^= 0xA5
+			}
+			if alias != nil {
+				ah, am = alias.PayloadHash(), alias.PayloadMarshal()
+			}
+			ref, _ := common.UnmarshalVersionedTransaction(c)
+			if ref != nil {
+				bh, bm = ref.PayloadHash(), ref.PayloadMarshal()
+			}
+		}); !p && alias != nil {
+			st.r.Count("buffer_reuse_probes", 1)
+			if ah != bh || !bytes.Equal(am, bm) {
+				st.r.Violation("C06|decode|result-aliases-input-buffer|"+class, "a decoded transaction reports another payload encoding or hash after the caller overwrote the byte slice it was decoded from (the hash is not a function of the decoded content)",
+					map[string]any{"class": class, "case": st.caseNo, "input": vC06Hex(c), "hash_after_overwrite": ah.String(), "hash": bh.String()})
+			}
+		}
+	}
 	var re []byte
 	if p, val, stack := verifkit.Guard(func() { re = ver.Marshal() }); p {
 		st.r.Violation("C06|decode|reencode-panic|"+class, fmt.Sprintf("an accepted byte string decodes to a transaction that cannot be encoded: %v at %s", val, verifkit.PanicSite(stack)),
